@@ -797,21 +797,28 @@ def signature_of(clause, detail, cfg, ex):
     return sig
 
 
-def explore(ctx, rec, pid, profile, n_quick, n_thorough, want_prefixes, runtimes=("asyncio", "trio"), gen=None):
+def corpus(ctx, pid):
+    """stored replays of known findings for this property (run first, once per check run, so their lines are deterministic)"""
     import core
-    rng = ctx.rng
-    n = n_quick if ctx.quick else n_thorough
-    corpus = []
+    out = []
     key = "_h2corpus_done_" + pid
     if not getattr(ctx, key, False):
         setattr(ctx, key, True)
         for k in core.load_known():
             ra = k.get("replay_args")
             if k["property"] == pid and ra and ra.get("engine") == "h2x":
-                corpus.append((ra["runtime"], ra["cfg"], ra["seed"]))
-    for i in range(len(corpus) + n):
-        if i < len(corpus):
-            rt, cfg, seed = corpus[i]
+                out.append((ra["runtime"], ra["cfg"], ra["seed"]))
+    return out
+
+
+def explore(ctx, rec, pid, profile, n_quick, n_thorough, want_prefixes, runtimes=("asyncio", "trio"), gen=None):
+    import core
+    rng = ctx.rng
+    n = n_quick if ctx.quick else n_thorough
+    stored = corpus(ctx, pid)
+    for i in range(len(stored) + n):
+        if i < len(stored):
+            rt, cfg, seed = stored[i]
             rec.dist[f"{pid}:corpus"] += 1
         else:
             cfg = dict(profile)
